@@ -71,7 +71,10 @@ FLOW_EPS = 1e-10
 
 
 def _depth(tier):
-    return 2 if tier == "quick" else 3
+    # quick: all histories of depth 2 over the full 40-action alphabet, plus a third level restricted to HOLD actions
+    # (3 step sizes) from every depth-2 state -- the hold clause needs a non-coaxial two-step pre-history to expose a
+    # wrong flow rule (a seeded change in the three-branch model was only caught at depth 3)
+    return 3
 
 
 def _configs():
@@ -283,6 +286,8 @@ def run_group(g, tier, seed, rec):
         only_hist = rec.only.split(";hist=", 1)[1].split(">")
 
     def action_list(depth, virgin_exact):
+        if tier == "quick" and depth == 3:
+            return [("hold", rl, rv, False) for rl, rv in RATIOS if rl in ("1e-2", "1", "1e2")]
         acts = [(t, rl, rv, False) for t in TARGET_LABELS for rl, rv in RATIOS]
         if virgin_exact:
             acts += [(t, rl, rv, True) for t in TARGET_LABELS for rl, rv in LIMIT_RATIOS]
